@@ -52,6 +52,12 @@ F: Dict[str, Dict[str, Any]] = {
     'ivar':          {'pk/a.py': 'class Iv:\n    """\n    @ivar q: doc L{A}\n    @type q: L{A}\n    """\n'},
     'same-name':     {'__files__': {'pk/pk.py': '"""Inner pk."""\nclass InPk:\n    pass\n'}, 'pk/__init__.py': 'version = "1"\n"""the version"""\ndef rootfn(): "L{version}"\n'},
     'odd-names':     {'pk/a.py': 'class Ünï:\n    def mé(self): "L{Ünï}"\nclass Y(Ünï): pass\n'},
+    # the same top-level name given twice, from two source trees: the later one wins; what only the earlier one had must not leave dead links
+    'dup-root-package': {'__files__': {'old/dup/__init__.py': '"""Old."""\nclass InOld:\n    "o"\n', 'old/dup/legacy.py': '"""Legacy."""\nclass Adapter:\n    "a"\n    def run(self): "L{Adapter}"\ndef lf(): "f"\n',
+                                       'old/dup/shared.py': 'def s(): "old"\n', 'new/dup/__init__.py': '"""New."""\nclass InNew:\n    "n"\n', 'new/dup/shared.py': 'def s(): "new"\nclass NewK:\n    "k"\n    def m(self): "L{NewK}"\n'},
+                         '__roots__': ['old/dup', 'new/dup']},
+    'dup-root-module': {'__files__': {'m1/dupm.py': '"""First."""\nclass OnlyFirst:\n    "f"\n    def m(self): "L{OnlyFirst}"\n', 'm2/dupm.py': '"""Second."""\nclass OnlySecond:\n    "s"\n'},
+                        '__roots__': ['m1/dupm.py', 'm2/dupm.py']},
     'two-roots':     {'__files__': {'other/__init__.py': '"""Other root."""\nfrom pk.a import A\nclass OA(A):\n    def meth(self): "L{pk.a.A}"\n', 'other/m.py': 'def om(): "L{other}"\n'},
                       '__roots__': ['other']},
     'mod-sections':  {'__files__': {'pk/secmod.py': '"""\nIntro.\n\nUsage\n=====\n\nText.\n\nDetails\n-------\n\nMore.\n"""\nclass SecK:\n    """K doc."""\n    class SecIn:\n        "in"\ndef secf(): "L{SecK}"\n'}},
